@@ -6,7 +6,7 @@ src="$1"; outj="$2"
 name=$(echo "$src" | tr '/' '_')
 wt=/tmp/cm/$name
 rm -rf "$wt"; mkdir -p /tmp/cm
-git -C /repo worktree add -q --detach "$wt" e82b159 || exit 2
+git -C /repo worktree add -q --detach "$wt" ${CM_BASE:-e82b159} || exit 2
 cp /repo/Cargo.lock "$wt/"
 cd "$wt"
 export CARGO_NET_OFFLINE=true
